@@ -831,6 +831,80 @@ fn dump_types<'tcx>(tcx: TyCtxt<'tcx>) -> J {
     J::A(out)
 }
 
+/// Foreign (non-std) ADTs that occur in the local declarations of local bodies: variant names,
+/// discriminants and field types, so that rules can build values of e.g. crossterm's KeyCode.
+fn dump_foreign_types<'tcx>(tcx: TyCtxt<'tcx>) -> J {
+    use rustc_middle::ty::TypeVisitableExt;
+    let mut seen: std::collections::BTreeMap<String, J> = std::collections::BTreeMap::new();
+    let keys: Vec<LocalDefId> = tcx.mir_keys(()).iter().copied().collect();
+    for ldid in keys {
+        let def_id = ldid.to_def_id();
+        if !matches!(tcx.def_kind(def_id), DefKind::Fn | DefKind::AssocFn | DefKind::Closure) {
+            continue;
+        }
+        let body = tcx.optimized_mir(def_id);
+        for decl in body.local_decls.iter() {
+            for arg in decl.ty.walk() {
+                let Some(t) = arg.as_type() else { continue };
+                let rustc_middle::ty::TyKind::Adt(adt, _) = t.kind() else { continue };
+                let did = adt.did();
+                if did.is_local() {
+                    continue;
+                }
+                let kr = tcx.crate_name(did.krate).to_string();
+                if matches!(kr.as_str(), "core" | "alloc" | "std" | "emulator_2a_lib") {
+                    continue;
+                }
+                let path = tcx.def_path_str(did);
+                if seen.contains_key(&path) {
+                    continue;
+                }
+                let discrs: Vec<(usize, u128)> = if adt.is_enum() {
+                    adt.discriminants(tcx).map(|(vi, d)| (vi.index(), d.val)).collect()
+                } else {
+                    vec![]
+                };
+                let variants: Vec<J> = adt
+                    .variants()
+                    .iter_enumerated()
+                    .map(|(vi, v)| {
+                        let fields: Vec<J> = v
+                            .fields
+                            .iter()
+                            .map(|f| {
+                                let fty = tcx.type_of(f.did).instantiate_identity().skip_norm_wip();
+                                let _ = fty.has_param();
+                                J::obj(vec![("n", J::S(f.name.to_string())), ("ty", J::S(ty_s(fty)))])
+                            })
+                            .collect();
+                        let mut vo = vec![("n", J::S(v.name.to_string())), ("fields", J::A(fields))];
+                        if let Some((_, d)) = discrs.iter().find(|(i, _)| *i == vi.index()) {
+                            vo.push(("discr", J::n(*d as i128)));
+                        }
+                        J::obj(vo)
+                    })
+                    .collect();
+                let kind = if adt.is_enum() { "Enum" } else if adt.is_union() { "Union" } else { "Struct" };
+                seen.insert(
+                    path.clone(),
+                    J::obj(vec![
+                        ("path", J::S(path)),
+                        ("kind", J::S(kind.to_string())),
+                        ("vis", J::S("Public".to_string())),
+                        ("file", J::S(String::new())),
+                        ("line", J::n(0)),
+                        ("generic", J::B(tcx.generics_of(did).requires_monomorphization(tcx))),
+                        ("foreign", J::B(true)),
+                        ("krate", J::S(kr)),
+                        ("variants", J::A(variants)),
+                    ]),
+                );
+            }
+        }
+    }
+    J::A(seen.into_values().collect())
+}
+
 fn dump_consts<'tcx>(tcx: TyCtxt<'tcx>) -> J {
     let mut out = vec![];
     for ldid in tcx.hir_crate_items(()).definitions() {
@@ -961,6 +1035,7 @@ fn dump<'tcx>(tcx: TyCtxt<'tcx>, name: &str) -> J {
         ("features", J::A(features)),
         ("bodies", J::A(bodies)),
         ("types", dump_types(tcx)),
+        ("foreign_types", dump_foreign_types(tcx)),
         ("consts", dump_consts(tcx)),
     ])
 }
